@@ -19,7 +19,8 @@ from . import common, lib_expand as L
 from .common import parallel_map
 
 RULE = ("case = product graph (3-6 names x 1-3 versions, required/optional edges, bare / explicit / expression / "
-        "version+[expression] specs, -j, --external, optional products absent; 'cf' stream conflict-free by construction, "
+        "version+[expression] specs, -j, --external, optional products absent, a share of the dependency tables already in "
+        "expanded form (exact block + inexact branch); 'cf' stream conflict-free by construction, "
         "'arb' stream with arbitrary specs incl. diamond conflicts) + build-time setup of the top product + expansion of its "
         "table (CLI defaults) + 0-4 syntactic/option variants expanded in the same environment + random evolution "
         "(new lower/higher versions, current moved, absent products appearing) + exact re-setup; a case is non-trivial when "
@@ -126,16 +127,27 @@ def child_expand(env, path, opts, names):
         svd, spvd = dict(map(tuple, ans["sv"])), dict(map(tuple, ans["spv"]))
         depd = {(a, b): c for a, b, c in ans["deps"]}
 
+        recorded, state_dep = {}, []
+
         def w_deps(n, v=None, *a, **k):
+            # A listing depends on the state of the Eups instance when dependency tables have `type == exact` blocks
+            # (the first lookup of an instance resolves the VRO and switches exact_version on).  The model's datum for
+            # (n, v) is therefore the answer the expander itself got, provided it asked the registered question
+            # (setup=True, shouldRaise=True); the answer obtained beforehand is used for everything it did not ask.
+            same_q = (k.get("setup") is True and k.get("shouldRaise") is True and len(a) == 1 and (n, v) in depd)
             try:
                 d = real_deps(n, v, *a, **k)
             except Exception as ex:  # noqa
                 seen["deps_exc"] = ex
-                if depd.get((n, v), "missing") is not None:
-                    unstable.append("deps(%s,%s) raised now" % (n, v))
+                if same_q and (n, v) not in recorded:
+                    recorded[(n, v)] = None
+                    if depd[(n, v)] is not None:
+                        state_dep.append("deps(%s,%s) raised in the call" % (n, v))
                 raise
-            if depd.get((n, v), "missing") != [[a_, b_, bool(c_)] for a_, b_, c_, _ in d]:
-                unstable.append("deps(%s,%s) differs" % (n, v))
+            if same_q and (n, v) not in recorded:
+                recorded[(n, v)] = [[a_, b_, bool(c_)] for a_, b_, c_, _ in d]
+                if depd[(n, v)] != recorded[(n, v)]:
+                    state_dep.append("deps(%s,%s) differs" % (n, v))
             return d
 
         def w_sv(n, *a, **k):
@@ -173,6 +185,8 @@ def child_expand(env, path, opts, names):
         finally:
             eups.getDependencies, eups.getSetupVersion = real_deps, real_sv
         res["unstable"] = unstable
+        res["state_dependent"] = state_dep
+        ans["deps"] = [[n, v, recorded.get((n, v), d)] for n, v, d in ans["deps"]]
     return res
 
 
@@ -197,6 +211,7 @@ def child_actions(env, paths):
 
 class Worker:
     def __init__(self):
+        common.import_eups()            # (cleans the environment; the children inherit the imported modules)
         self.root = common.scratch("c17")
         stacks, uds = common.mkstacks(self.root)
         self.stack = stacks[0]
@@ -289,13 +304,21 @@ def model_request(exp):
             "spv": a["spv"], "sv": a["sv"], "deps": a["deps"]}
 
 
+def canon_lines(ls):
+    """The property-relevant content of a table text: its commands and block lines in order.  Indentation, the padding
+    inside a line, blank lines, comment lines and trailing comments are dropped, so that a change of the expander's
+    cosmetics is not reported as a broken correspondence."""
+    out = []
+    for l in ls:
+        l = " ".join(re.sub(r"\s*#.*$", "", l).split())
+        if l:
+            out.append(l)
+    return out
+
+
 def impl_view(exp):
     if "out" in exp:
-        t = exp["out"]
-        ls = t.split("\n")
-        if ls and ls[-1] == "":
-            ls.pop()
-        return {"out": "ok", "lines": ls}
+        return {"out": "ok", "lines": canon_lines(exp["out"].split("\n"))}
     return {"out": "error", "err": exp.get("err")}
 
 
@@ -303,8 +326,18 @@ def model_view(ans):
     if "bad-op" in ans:
         return {"out": "bad-op", "why": ans["bad-op"]}
     if ans["out"] == "ok":
-        return {"out": "ok", "lines": ans["lines"]}
+        return {"out": "ok", "lines": canon_lines(ans["lines"])}
     return {"out": "error", "err": ans["err"]}
+
+
+def same_text(exp, ans):
+    """byte-for-byte agreement of the two texts (a statistic, not an alarm)"""
+    if "out" not in exp or not isinstance(ans, dict) or ans.get("out") != "ok":
+        return None
+    ls = exp["out"].split("\n")
+    if ls and ls[-1] == "":
+        ls.pop()
+    return ls == ans["lines"]
 
 
 def model_hyps(ans):
@@ -493,6 +526,65 @@ def oracle_case(case, res):
                    % (res.get("exact_ok"), res.get("exact_records"), built), 0)
 
 
+# ---- the regular expressions, one by one -------------------------------------------------------------------
+
+RE_TOKENS = ["setupRequired(", "setupRequired(", "setupOptional(", "setupOptional(", ")", ")", "setupRequired", "setup", '"', ")", "(", " ", " ", "\t", "#", "a", "b 1", "eups", "-j",
+             "[", "]", ">=", "==", "=", " = 1", "<", "{", "}", "if", "(type", "exact)", "--external", "x", "1.0", "\r", "\x0b"]
+REX = r'(setupRequired|setupOptional)\("?([^"]*)"?\)'
+
+
+def gen_re_line(rng):
+    n = rng.choice([0, 1, 2, 3, 4, 5, 6, 8, 12])
+    s = "".join(rng.choice(RE_TOKENS) for _ in range(n))
+    if rng.random() < 0.7:
+        s += "\n"
+    return s
+
+
+def python_re(l):
+    """What the patterns of expandTableFile / subSetup / isLegalRelativeVersion say about one line (CPython `re`)."""
+    m = re.search(REX, l)
+    tok = l.split()[0] if l.split() else ""
+    br = []
+    a = tok
+    mat = re.search(r"^\[\s*(.*)\s*\]?$", a)
+    if mat:
+        br.append("[")
+        a = mat.group(1)
+    mat = re.search(r"^(.*)\s*\]$", a)
+    br += [mat.group(1), "]"] if mat else [a]
+    return {"blank": bool(re.search(r"^\s*(#.*)?$", l)), "nocomment": re.sub(r"\s*#.*$", "", l),
+            "rex": {"optional": m.group(1) == "setupOptional", "args": m.group(2), "len": len(m.group(0))} if m else None,
+            "preExact": bool(re.search(r"if\s*\(type\s*==\s*exact\)\s*{", l)), "openBrace": bool(re.search(r"{\s*$", l)),
+            "closeBrace": bool(re.search(r"^\s*}\s*$", l)), "split": l.split(), "strip": l.strip(),
+            "relop": bool(re.search(r"<=?|>=?|==", l)), "badrelop": bool(re.match(r"^\s*=\s+\S+", l)),
+            "first": l.split(" ")[0], "bracket_of_first_token": br, "external": "--external" in l}
+
+
+def evaluate_regexes(ctx, n):
+    """Differential test of the hand-translated patterns against CPython `re` on token-generated lines."""
+    lines = [gen_re_line(ctx.rng) for _ in range(n)]
+    ans = ctx.lean.ask({"m": "c17", "op": "re", "lines": lines})
+    if "bad-op" in ans:
+        raise common.InfraError("driver: %s" % ans["bad-op"])
+    toks = [(l.split()[0] if l.split() else "") for l in lines]
+    brs = ctx.lean.ask({"m": "c17", "op": "re", "lines": toks})["res"]
+    bad = 0
+    for l, a, b in zip(lines, ans["res"], brs):
+        py = python_re(l)
+        mo = dict(a)
+        mo["bracket_of_first_token"] = b["bracket"]
+        del mo["bracket"]
+        ctx.hist("re_lines")
+        if py["rex"]:
+            ctx.hist("re_rex_matches")
+        if mo != py:
+            bad += 1
+            if bad <= 3:
+                keys = [k for k in py if py[k] != mo.get(k)]
+                ctx.disagree("regex_translation", {"line": l}, {k: py[k] for k in keys}, {k: mo.get(k) for k in keys})
+
+
 # ---- entry points ------------------------------------------------------------------------------------------
 
 def corpus_cases():
@@ -533,6 +625,9 @@ def evaluate(ctx, cases):
     for (ci, ei), a in zip(where, answers):
         models[(ci, ei)] = model_view(a)
         hyps[(ci, ei)] = model_hyps(a)
+        st = same_text(results[ci]["exps"][ei], a)
+        if st is not None:
+            ctx.hist("text_byte_identical=%s" % st)
     for ci, (c, r) in enumerate(zip(cases, results)):
         inp = case_input(c)
         ok = r.get("build_ok") is True
@@ -543,6 +638,8 @@ def evaluate(ctx, cases):
                  sample=({"top": c["top"], "table": L.table_text(topl), "built": r.get("built"),
                           "expanded": r["exps"][0].get("out") if r["exps"] else None} if ctx.evaluations % 97 == 0 else None))
         ctx.hist("stream=%s" % c["stream"])
+        if c.get("expanded_deps"):
+            ctx.hist("has_expanded_dependency_tables")
         ctx.hist("build=%s" % r.get("build_ok"))
         if not ok:
             continue
@@ -562,6 +659,8 @@ def evaluate(ctx, cases):
             if "skip" in exp:
                 ctx.hist("%s_skipped" % kind)
                 continue
+            if exp.get("state_dependent"):
+                ctx.hist("deps_answer_state_dependent")
             if exp.get("unstable"):
                 raise common.InfraError("the environment's answers changed between the query and the call: %r" % exp["unstable"][:3])
             iv = impl_view(exp)
@@ -594,11 +693,44 @@ def evaluate(ctx, cases):
             ctx.fail(clause, {"case": inp, "expansion": ei}, impl_view(exp), models.get((ci, ei)), note=detail, finding=cls)
 
 
+EXH_FORMS = ["setupRequired(b)", "setupOptional(x)", "setupRequired(c >= 1)", "setupOptional(d -j 1 [>= 1])", "envSet(A, 1)  # c", "",
+             "# c", "if (flavor == Linux) {", "}", "} else {", "setupRequired(b --external)", "if (type == exact) {",
+             "setupRequired(eups)", "setupRequired(q)"]
+
+
+def exhaustive_cases(maxlen, chunk=150):
+    """Every table of 1..maxlen lines over EXH_FORMS, expanded in one fixed build environment
+    (a 1 -> b 1 -> c 2, d 1 set up with -j, x absent, q required but not set up)."""
+    import itertools
+    P = {"k": "cmd", "text": "envPrepend(PATH, ${PRODUCT_DIR}/bin)"}
+
+    def S(name, optional=False, spec=None, flags=()):
+        return {"k": "setup", "optional": optional, "name": name, "spec": spec, "flags": list(flags), "deco": {}}
+    decl = [["a", "1", [P, S("b"), S("d", True, None, ["-j"]), S("x", True)]], ["b", "1", [P, S("c", False, {"e": ">= 1"})]],
+            ["c", "2", [P]], ["d", "1", [P, S("c")]]]
+    opts = {"pins": {}, "force": False, "expandVersions": True, "addExactBlock": True, "toplevel": "a", "recurse": True}
+    texts = []
+    for k in range(1, maxlen + 1):
+        for combo in itertools.product(EXH_FORMS, repeat=k):
+            texts.append("\n".join(combo) + "\n")
+    cases = []
+    for i in range(0, len(texts), chunk):
+        cases.append({"names": ["a", "b", "c", "d"], "decl": decl, "tags": {"a": "1", "b": "1", "c": "2", "d": "1"},
+                      "build": {"a": "1", "b": "1", "c": "2", "d": "1"}, "top": ["a", "1"], "stream": "cf", "inexact_build": False,
+                      "final_newline": True, "evolve": [], "expanded_deps": [], "opts": opts, "_exhaustive": True,
+                      "variants": [{"text": t, "opts": opts} for t in texts[i:i + chunk]]})
+    return cases
+
+
 def run(ctx):
     cases = corpus_cases()
     ctx.hist("corpus", len(cases))
+    evaluate_regexes(ctx, ctx.n(20000, 300000))
     evaluate(ctx, cases)
-    n = ctx.n(700, 12000)
+    ex = exhaustive_cases(ctx.n(2, 3))
+    ctx.hist("exhaustive_small_tables", sum(len(c["variants"]) for c in ex))
+    evaluate(ctx, ex)
+    n = ctx.n(1200, 30000)
     batch = 120
     done = 0
     while done < n and not ctx.out_of_time():
